@@ -20,12 +20,12 @@ if ! git -C $M apply --check $PATCH 2>/dev/null && [ ! -f $SD/patch.rebased.diff
 fi
 if ! git -C $M apply $PATCH 2>/tmp/se-$$.err; then
   # the tree has moved on (fix commits): try a 3-way merge and keep the rebased patch
-  if git -C $M apply --3way $SD/patch.diff >/dev/null 2>&1 && [ -z "$(git -C $M diff --name-only --diff-filter=U)" ]; then
+  if git -C $M apply --3way $PATCH >/dev/null 2>&1 && [ -z "$(git -C $M diff --name-only --diff-filter=U)" ]; then
     git -C $M reset -q; git -C $M diff > $SD/patch.rebased.diff; PATCH=$SD/patch.rebased.diff; echo "patch rebased onto current HEAD (3-way)"
   else
     # both sides appended helpers at the end of a file, or touched neighbouring lines: GNU patch with offsets and fuzz
     git -C $M reset -q --hard; git -C $M clean -qfd
-    if (cd $M && patch -p1 -F3 -N --no-backup-if-mismatch < $SD/patch.diff >/dev/null 2>&1) && (cd $M && go build ./... >/dev/null 2>&1); then
+    if (cd $M && patch -p1 -F3 -N --no-backup-if-mismatch < $PATCH >/dev/null 2>&1) && (cd $M && go build ./... >/dev/null 2>&1); then
       git -C $M diff > $SD/patch.rebased.diff; PATCH=$SD/patch.rebased.diff; echo "patch rebased onto current HEAD (patch with fuzz)"
       git -C $M reset -q --hard; git -C $M clean -qfd; git -C $M apply $PATCH
     else
